@@ -459,10 +459,27 @@ func (gen *generator) getIndex(index ast.Constant) gep.Index {
 						VectorLen: uint64(len(elems)),
 					}
 				}
+			case *ast.BoolConst:
+				var x int64
+				if boolLit(elem.BoolLit()) {
+					x = 1
+				}
+				if i == 0 {
+					val = x
+				} else if x != val {
+					return gep.Index{
+						HasVal:    false,
+						VectorLen: uint64(len(elems)),
+					}
+				}
 			default:
-				// TODO: remove debug output.
-				panic(fmt.Errorf("support for gep index vector element type %T not yet implemented", elem))
-				//return gep.Index{HasVal: false}
+				// an element without a concrete integer value (undef, poison, a
+				// constant expression): the index vector has no single value, but
+				// it still has a length.
+				return gep.Index{
+					HasVal:    false,
+					VectorLen: uint64(len(elems)),
+				}
 			}
 		}
 		return gep.Index{
